@@ -27,6 +27,11 @@ pub enum Cmd {
     Rp { inner: Box<Cmd> },
     /// the administrators (same script on both servers) touch a secret key and a shared plain key
     AdminTouch { n: u8 },
+    /// two administrator sessions write a secret key with the same (stale) version: on a database with the arbiter
+    /// strategy that is a conflict, which the node hands to whoever registered as arbiter
+    AdminConflict { n: u8 },
+    /// `keys $conflicts`, then `get` of every key it lists
+    GetListedConflicts,
 }
 
 pub fn render(c: &Cmd) -> String {
@@ -50,7 +55,8 @@ pub fn render_db(c: &Cmd, db_name: &str) -> String {
         },
         Cmd::Raw { line } => line.clone(),
         Cmd::Rp { inner } => format!("rp 5 {}", render_db(inner, db_name)),
-        Cmd::AdminTouch { .. } => String::new(),
+        Cmd::AdminTouch { .. } | Cmd::AdminConflict { .. } => String::new(),
+        Cmd::GetListedConflicts => "keys $conflicts".to_string(),
     }
 }
 
@@ -116,6 +122,8 @@ pub fn cmd_strategy() -> impl Strategy<Value = Cmd> {
         8 => leaf.clone(),
         1 => leaf.prop_map(|c| Cmd::Rp { inner: Box::new(c) }),
         1 => (0..3u8).prop_map(|n| Cmd::AdminTouch { n }),
+        1 => (0..3u8).prop_map(|n| Cmd::AdminConflict { n }),
+        1 => Just(Cmd::GetListedConflicts),
     ]
 }
 
@@ -126,6 +134,9 @@ pub struct Case {
     /// permission list of the attacking user bob ("" = none)
     pub perms: String,
     pub cmds: Vec<Cmd>,
+    /// the database uses the arbiter strategy (conflicting versioned writes are handed to a registered arbiter)
+    #[serde(default)]
+    pub arbiter_db: bool,
 }
 
 pub fn perms_pool() -> Vec<&'static str> {
@@ -134,7 +145,8 @@ pub fn perms_pool() -> Vec<&'static str> {
 
 pub fn case_strategy() -> impl Strategy<Value = Case> {
     (select(vec!["dbtoken", "user"]), select(perms_pool()), prop::collection::vec(cmd_strategy(), 1..9))
-        .prop_map(|(s, p, cmds)| Case { session: s.to_string(), perms: p.to_string(), cmds })
+        .prop_map(|(s, p, cmds)| Case { session: s.to_string(), perms: p.to_string(), cmds, arbiter_db: false })
+        .prop_flat_map(|c| prop::bool::weighted(0.4).prop_map(move |a| Case { arbiter_db: a, ..c.clone() }))
 }
 
 /// secrets of server variant `v` (0 or 1); variant 1 additionally lacks one secret key
@@ -157,7 +169,7 @@ pub fn build_server(dir: &str, variant: usize, case: &Case) -> Server {
     let mut node = Node::boot_single(dir);
     let mut admin = Session::new();
     admin.auth(&node);
-    admin.send(&node, &format!("create-db {} {}", DB, DBTOK));
+    admin.send(&node, &format!("create-db {} {}{}", DB, DBTOK, if case.arbiter_db { " arbiter" } else { "" }));
     admin.send(&node, &format!("use-db {} {}", DB, DBTOK));
     admin.send(&node, "set secret plainvalue");
     admin.send(&node, "set a 1");
@@ -316,6 +328,33 @@ fn run_on(dir: &str, variant: usize, case: &Case) -> (Vec<String>, Option<(Strin
             transcript.push(format!("[{}] admin-touch -> {:?}", i, att.drain()));
             continue;
         }
+        if let Cmd::AdminConflict { n } = c {
+            // two writers present the same stale version of a secret key, contents differ between the servers
+            for w in 0..2 {
+                let sv = if variant == 0 { format!("conflict-{}-{}-alpha", n, w) } else { format!("conflict-{}-{}-omega-x", n, w) };
+                srv.admin.send(&srv.node, &format!("set-safe $$secret 0 {}", sv));
+            }
+            srv.node.pump();
+            srv.admin.drain();
+            before = secure_dump(&srv.node);
+            transcript.push(format!("[{}] admin-conflict -> {:?}", i, att.drain()));
+            continue;
+        }
+        if let Cmd::GetListedConflicts = c {
+            let listed = match att.send_caught(&srv.node, "keys $conflicts") {
+                Ok((_, msgs)) => msgs,
+                Err(p) => vec![format!("PANIC {}", p)],
+            };
+            let mut t = format!("[{}] get-listed-conflicts -> {:?}", i, listed);
+            for k in listed.iter().flat_map(|m| m.trim_end().trim_start_matches("keys ").split(',').map(|x| x.to_string()).collect::<Vec<_>>()).filter(|k| k.starts_with("$conflicts_")) {
+                if let Ok((r, msgs)) = att.send_caught(&srv.node, &format!("get {}", k)) {
+                    t.push_str(&format!(" | get {} -> {} {:?}", k, resp_text(&r), msgs));
+                }
+            }
+            srv.node.pump();
+            transcript.push(t);
+            continue;
+        }
         let line = render(c);
         let res = att.send_caught(&srv.node, &line);
         srv.node.pump();
@@ -361,8 +400,27 @@ pub fn run_case(ctx: &Ctx, case: &Case) -> Outcome {
         out.fail = Some(f);
         return out;
     }
+    // (operation ids are times of the node's clock: they differ between two runs and say nothing about secrets)
+    let mask = |s: &String| -> String {
+        let mut out = String::new();
+        let mut run = String::new();
+        for ch in s.chars().chain(std::iter::once(' ')) {
+            if ch.is_ascii_digit() {
+                run.push(ch);
+            } else {
+                if run.len() >= 15 {
+                    out.push_str("<id>");
+                } else {
+                    out.push_str(&run);
+                }
+                run.clear();
+                out.push(ch);
+            }
+        }
+        out
+    };
     for (a, b) in t0.iter().zip(t1.iter()) {
-        if a != b {
+        if mask(a) != mask(b) {
             let line = a.split(" -> ").next().unwrap_or("").splitn(2, ' ').nth(1).unwrap_or("").to_string();
             let word = line.split(' ').next().unwrap_or("").to_string();
             let word = if word == "rp" { format!("rp+{}", line.split(' ').nth(2).unwrap_or("")) } else { word };
@@ -444,7 +502,7 @@ pub fn run_cluster_case(ctx: &Ctx, case: &Case) -> Outcome {
 /// `remove $$token` is refused for administrators too
 fn token_guard(ctx: &Ctx) -> Outcome {
     let dir = ctx.fresh_dir();
-    let case = Case { session: "dbtoken".into(), perms: "".into(), cmds: vec![] };
+    let case = Case { session: "dbtoken".into(), perms: "".into(), cmds: vec![], arbiter_db: false };
     let mut srv = build_server(&dir, 0, &case);
     let mut out = Outcome::ok(true);
     for line in ["remove $$token", "rp 3 remove $$token", "replicate-remove d $$token"] {
@@ -495,7 +553,7 @@ pub fn run(ctx: &Ctx, rep: &mut Report) {
     for s in ["dbtoken", "user"] {
         for p in ["", "rwix *", "rwix $$*"] {
             for c in singles.iter() {
-                cases.push(Case { session: s.to_string(), perms: p.to_string(), cmds: vec![c.clone(), Cmd::AdminTouch { n: 1 }] });
+                cases.push(Case { session: s.to_string(), perms: p.to_string(), cmds: vec![c.clone(), Cmd::AdminTouch { n: 1 }], arbiter_db: false });
             }
         }
     }
@@ -521,11 +579,11 @@ pub fn run(ctx: &Ctx, rep: &mut Report) {
                     if let Cmd::Rp { .. } = c {
                         continue;
                     }
-                    cases.push(Case { session: s.to_string(), perms: p.to_string(), cmds: vec![c.clone()] });
+                    cases.push(Case { session: s.to_string(), perms: p.to_string(), cmds: vec![c.clone()], arbiter_db: false });
                     // the same command from a session connected to the primary (a case of even length): what the primary
                     // answers ok is replicated to the secondary, which runs it with the link's rights and forwards
                     if p.is_empty() {
-                        cases.push(Case { session: s.to_string(), perms: p.to_string(), cmds: vec![c.clone(), Cmd::AdminTouch { n: 0 }] });
+                        cases.push(Case { session: s.to_string(), perms: p.to_string(), cmds: vec![c.clone(), Cmd::AdminTouch { n: 0 }], arbiter_db: false });
                     }
                 }
             }
